@@ -25,6 +25,7 @@ CLAIM = dict(
          "initial stacks: next_op progress, skip_branch/remove_sig fuel independence, every opcode arm free of panic sites given the "
          "check_index invariant, the main loop never out of fuel, coreEval/eval always ok or err. The model is the one tied to the real "
          "interpreter by C01's and C07's differential runs (exact outcome for scripted checkers); the three real checkers are run under "
-         "catch_unwind on hostile scripts and transactions.",
+         "catch_unwind on hostile scripts and transactions; every request runs under a deadline, so an evaluation that does not "
+         "terminate is reported with its input (outcome hang:10s); initial stacks of every depth named by a literal of the sources.",
     note="Trusted: Lean kernel; differential tie bounded by generators; k256 and the TransactionChecker's sighash path observed, not proved here.",
 )
